@@ -399,4 +399,10 @@ example : reqKey cfgCase [47, 65, 63, 66, 61, 49] = reqKey cfgCase [47, 97, 63, 
 example : ruleMatches { cfgDefault with ignoreCase := false } [47, 97, 63, 120, 61, 49] [47, 97, 63, 120, 61, 50] = false := by
   decide
 
+/-- the D12 input (repaired by ac67ce9): with marketing parameters kept, rule `/a?b=1&a=2` matches the
+request `/a?b=1&a=2` (both sides now sort). -/
+example : ruleMatches { cfgDefault with ignoreMarketing := false } [47, 97, 63, 98, 61, 49, 38, 97, 61, 50]
+    [47, 97, 63, 98, 61, 49, 38, 97, 61, 50] = true :=
+  self_match_router _ _ (by decide) (by decide)
+
 end Rio.C09
